@@ -24,6 +24,7 @@ pub fn main(sub: &str, args: &[String]) -> i32 {
         "dom-chardata" => chardata(args),
         "dom-factory" => factory(args),
         "dom-attrs" => elem_attrs(args),
+        "dom-attrmove" => attr_move(args),
         "dom-chardata-rerun" => rerun(args),
         _ => {
             eprintln!("unknown subcommand {}", sub);
@@ -893,5 +894,80 @@ pub fn elem_attrs(args: &[String]) -> i32 {
     }
     out.flush().unwrap();
     println!("{}", json!({"states": states.len(), "events": events, "written": written}));
+    0
+}
+
+// -------------------------------------------------------------------------------------------------
+// C11: one attribute node moved between elements with different declared types (AttrMove.tla)
+
+const MOVE_DOC: &str = "<!DOCTYPE r [<!ATTLIST a x NMTOKENS #IMPLIED><!ATTLIST b x CDATA #IMPLIED>]><r><a x=\" p  q \"/><b/><c/></r>";
+
+pub fn attr_move(args: &[String]) -> i32 {
+    let inp = arg_value(args, "--in").unwrap_or("-");
+    let outp = arg_value(args, "--out").unwrap_or("-");
+    let mut out = open_out(outp);
+    let mut n = 0usize;
+    for_each_case(inp, |c| {
+        let hist = c["hist"].as_array().cloned().unwrap_or_default();
+        let h2 = hist.clone();
+        let obs = guarded(move || -> Vec<J> {
+            let mut obs = vec![];
+            let doc = match parse(MOVE_DOC, false) {
+                Some(d) => d,
+                None => return obs,
+            };
+            let r = match root(&doc) {
+                Some(r) => r,
+                None => return obs,
+            };
+            let mut els: HashMap<String, xml_dom::XmlElement> = HashMap::new();
+            for c in r.child_nodes().iter() {
+                if let XmlNode::Element(e) = c {
+                    els.insert(e.tag_name(), e);
+                }
+            }
+            let attr = match els.get("a").and_then(|a| a.get_attribute_node("x")) {
+                Some(a) => a,
+                None => return obs,
+            };
+            let mut owner = "a".to_string();
+            // the value is read once before anything moves (an implementation may remember what it found)
+            let _ = attr.value();
+            for step in h2.iter() {
+                let op = step["op"].as_str().unwrap_or("");
+                let mut ok = true;
+                match op {
+                    "read" => {}
+                    "detach" | "move" => {
+                        if owner != "none" {
+                            ok &= els[&owner].remove_attribute_node(attr.clone()).is_ok();
+                        }
+                        owner = "none".into();
+                        if op == "move" {
+                            let to = step["to"].as_str().unwrap_or("").to_string();
+                            ok &= els[&to].set_attribute_node(attr.clone()).is_ok();
+                            owner = to;
+                        }
+                    }
+                    _ => ok = false,
+                }
+                let node = attr.value().map(|v| string_to_cps(&v)).unwrap_or_else(|_| json!([0]));
+                obs.push(json!({"ok": ok, "node": node,
+                    "a": string_to_cps(&els["a"].get_attribute("x")),
+                    "b": string_to_cps(&els["b"].get_attribute("x")),
+                    "c": string_to_cps(&els["c"].get_attribute("x"))}));
+            }
+            obs
+        });
+        let obs = match obs {
+            Ok(o) if o.len() == hist.len() => o,
+            Ok(_) => hist.iter().map(|_| json!({"ok": false, "node": [], "a": [], "b": [], "c": []})).collect(),
+            Err(p) => hist.iter().map(|_| json!({"ok": false, "node": string_to_cps(&p), "a": [], "b": [], "c": []})).collect(),
+        };
+        writeln!(out, "{}", json!({"event": "attrmove", "hist": hist, "obs": obs})).unwrap();
+        n += 1;
+    });
+    out.flush().unwrap();
+    println!("{}", json!({"sessions": n}));
     0
 }
